@@ -28,6 +28,10 @@ def r6(x):
 
 @st.composite
 def frequency(draw):
+    # mostly 0.1 MHz .. 1 GHz; a sixth of the cases from 10 kHz to 30 GHz (structures of kilometres and of
+    # millimetres: everything absolute in the program shows there)
+    if draw(st.integers(0, 5)) == 0:
+        return r6(draw(st.one_of(logf(0.01, 0.1), logf(1000.0, 30000.0))))
     return r6(draw(logf(0.1, 1000.0)))
 
 
